@@ -3,6 +3,8 @@
 #![allow(clippy::all)]
 #![allow(dead_code)]
 
+mod bus;
+mod dprig;
 mod engine;
 mod props;
 mod refcodec;
@@ -23,6 +25,8 @@ fn main() {
         match prop {
             "C09" => props::c09::replay(&v),
             "C10" => props::c10::replay(&v),
+            "C16" => props::c16::replay(&v),
+            "C17" => props::c17::replay(&v),
             _ => eprintln!("no replay for {prop}"),
         }
         return;
@@ -44,6 +48,8 @@ fn main() {
     match prop {
         "C09" => props::c09::run(tier),
         "C10" => props::c10::run(tier),
+        "C16" => props::c16::run(tier),
+        "C17" => props::c17::run(tier),
         _ => {
             eprintln!("unknown property {prop}");
             std::process::exit(2)
